@@ -33,9 +33,9 @@ type Val struct {
 	// SB (text-like types): the string value as raw bytes, used instead of S when non-nil - strings a
 	// handler writes need not be valid UTF-8 (legacy encodings, binary junk in a text column) and JSON
 	// cannot carry them in S
-	SB []byte `json:"sb,omitempty"`
-	Y    []byte `json:"y,omitempty"`
-	Bad  bool   `json:"bad,omitempty"` // a Go value no codec can encode
+	SB  []byte `json:"sb,omitempty"`
+	Y   []byte `json:"y,omitempty"`
+	Bad bool   `json:"bad,omitempty"` // a Go value no codec can encode
 	// Zone (date, timestamp, timestamptz): the time.Time the handler writes lives in a fixed zone this
 	// many seconds east of UTC. A zone-less type carries the value's own calendar date and clock
 	// time (what pgtype encodes); timestamptz carries the instant.
